@@ -66,7 +66,7 @@ def run_case(case, rng):
         probs = G.rand_probs(rng, len(cur))
         sp.init = list(zip(cur, probs))
         sp.init_kind = "dict"
-    rep = rng.choice(["subclass", "quicktabular"])
+    rep = rng.choice(["subclass", "quicktabular", "subclass", "quicktabular", "dsp_override", "quick_override"])
     G.restrict_to_closure(sp, rng)
     sp.init = [(s, p) for s, p in sp.init if p > 0]
     if not tie_family and rng.random() < 0.2:
